@@ -275,8 +275,18 @@ func c15Unit(first string, tier string) *Unit {
 					reqs = append(reqs, t.name[:len(t.name)-1], t.name+"x")
 				}
 			}
+			// a leading ':' marks the root Taskfile's namespace: from the command line ':x' is 'x',
+			// whether x resolves exactly, through a wildcard or through an alias
+			for _, r := range []string{"dup", "inc:dup", "axb", "a-x", "al", "other", "w-x", "inc:a", "zzz"} {
+				reqs = append(reqs, ":"+r)
+			}
+			for _, t := range tasks {
+				if t.file == "" && !strings.HasPrefix(t.name, ":") {
+					reqs = append(reqs, ":"+t.name)
+				}
+			}
 			for _, req := range reqs {
-				exp := c15Reference(tasks, req)
+				exp := c15Reference(tasks, strings.TrimPrefix(req, ":"))
 				out, err, pan := runResolve(dir, req)
 				n++
 				tag := metaTag(tasks, req)
